@@ -144,6 +144,8 @@ def h_history(ctx, role, lvl, ops, n, ack_arrives, link="per-packet", prep=()):
             node.power = False
         elif pr == "listen_off":  # ... or into TX mode
             node.listen = False
+        elif pr == "getters":  # ... or merely read every read-only attribute
+            touch_getters(node)
         elif pr == "route_timeout":  # boundary and small values of the time-outs (0 = do not wait at all)
             node.route_timeout = ctx.int("route_timeout", 0, 12)
         elif pr == "tx_timeout":
@@ -201,7 +203,8 @@ def jobs(tier):
                         if not (o == "write_desc" and l == 3)]):
         out.append(Job("single-call-through-outages", h_history, dict(role="net", lvl=lvl, ops=[op], n=n, ack_arrives=False, link="outage"),
                        cost=40, shards=4))
-    for pr, lvl, op, n, ack in ([(pr, 1, op, 0, False) for pr in ("power_off", "listen_off") for op in
+    for pr, lvl, op, n, ack in ([("getters", 2, op, 25, False) for op in ("write_child", "write_parent", "update", "multicast")] +
+                                [(pr, 1, op, 0, False) for pr in ("power_off", "listen_off") for op in
                                  ("write_self", "write_child", "write_parent", "multicast", "multicast_level", "node_address")] +
                                 [(pr, lvl, op, n, ack) for pr in ("route_timeout", "tx_timeout") for lvl, op, n in ((1, "write_other", 0), (2, "write_desc", 25), (2, "write_parent", 0))
                                  for ack in (False, True)]):
